@@ -149,6 +149,7 @@ fn one_request(with_budget: bool, with_pred: bool, dynamic_max: bool) {
     assert!(calls >= 1 || result.is_none(), "[C05.at_least_once] the wrapped service is invoked at least once");
     assert!(calls <= limit, "[C05.bounded_attempts] at most max(1, max_attempts) attempts");
     assert!(mon().last_req == req || calls == 0, "[C05.same_request] every attempt carries the request");
+    assert!(mon().unready_mask & 1 == 0, "[C20.retry_first_attempt_ready] the first attempt goes to the instance on which readiness was observed");
     assert!(result.is_some(), "[C05.resolves] with <= 3 attempts and elapsed backoffs the call has resolved");
     if let Some(res) = result {
         // the last outcome observed is outcomes[calls-1]
@@ -245,6 +246,37 @@ fn waits_full_backoff() {
     } else {
         assert!(p.is_ready() && mon().calls == 2, "[C05.zero_backoff] a zero backoff retries at once");
     }
+    drop(fut);
+    std::mem::forget(r);
+}
+
+/// KNOWN FINDING witness (C20 readiness): retries are issued on the same service value
+/// without polling it ready again.
+#[kani::proof]
+#[kani::unwind(5)]
+#[kani::stub(std::time::Instant::now, tokio::model::std_instant_now)]
+#[kani::stub(catch_unwind, crate::verif_kani::env::catch_unwind_stub)]
+fn c20_retries_unready() {
+    gh().delays = [Duration::ZERO; 3];
+    let interval = FnInterval::new(|k: usize| gh().delays[k.min(2)]);
+    let cfg = RetryConfig {
+        policy: RetryPolicy::<InnerErr>::new(Arc::new(interval)),
+        max_attempts_source: MaxAttemptsSource::Fixed(2),
+        event_listeners: tower_resilience_core::EventListeners::new(),
+        name: String::new(),
+        budget: None,
+    };
+    let mut script = svc::any_script();
+    script.never = false;
+    script.immediate = true;
+    script.outcomes[0] = Err(kani::any());
+    let mut r = Retry::new(Inner::new(script), Arc::new(cfg), PhantomData);
+    let _ = svc::poll_ready_once(&mut r);
+    let mut fut = r.call(kani::any());
+    let p = svc::poll_once(fut.as_mut());
+    assert!(p.is_ready() && mon().calls == 2, "[C05.zero_backoff] a zero backoff retries at once");
+    assert!(mon().unready_mask & 1 == 0, "[C20.retry_first_attempt_ready] the first attempt goes to the instance on which readiness was observed");
+    assert!(mon().unready_mask & 2 == 0, "[C20.retry_attempts_unready] every retry goes to an instance on which readiness was observed since its previous call");
     drop(fut);
     std::mem::forget(r);
 }
